@@ -644,6 +644,46 @@ DATAPTR_DROP = [
      r"ptr :: drop_in_place \( (?P=i_ptr) as \* mut T \) ; ptr :: write \( (?P=i_ptr) , MaybeUninit :: uninit \( \) \) ; \}$", "dropLoopToLen", None),
 ]
 
+POPULATE = [
+    (r"^let (?P<start_idx>\w+) (: usize )?= start \. into \( \) ;$", "bindStartIdx", None),
+    (r"^let (?P<end_idx>\w+) = slots \. len \( \) - 1 ;$", "bindEndIdx", None),
+    (r"^for (?P<idx>\w+) in start_idx \.\. end_idx \{ let (?P<next>\w+) = TrimmedIndex :: new_usize \( (?P=idx) \+ 1 \) \. unwrap \( \) ; "
+     r"let (?P<slot>\w+) = Slot :: new_free \( SlotIndex :: new_free \( (?P=next) \) \) ; "
+     r"slots \. get_mut \( (?P=idx) \) \. unwrap \( \) \. write \( (?P=slot) \) ; \}$", "loopLinkNext", None),
+    (r"^let (?P<last_slot>\w+) = Slot :: new_free \( SlotIndex :: free_end \( \) \) ;$", "bindLastSlot", None),
+    (r"^slots \. get_mut \( end_idx \) \. unwrap \( \) \. write \( last_slot \) ;$", "writeLast", None),
+    (r"^SlotIndex :: new_free \( start \)$", "returnNewFreeStart", None),
+]
+
+NEWFREE_FIELDS = [
+    (r"^index : p0$", "indexNextFree", None),
+    (r"^version : SlotVersion :: start \( \)$", "versionStart", None),
+]
+
+
+def populate_template(slo, start_at):
+    params, lo, hi = find_fn(slo, "populate_free_list", start_at)
+    names = param_names(params)
+    ts = toks_of(slo, lo, hi)
+    ren = {nm: c for nm, c in zip(names, ["start", "slots"])}
+    ts = [ren.get(t, t) for t in ts]
+    text = " ".join(ts)
+    m = re.match(r"^if slots \. len \( \) > 0 \{", text)
+    if not m or ts[0] != "if":
+        return "{ guardNonEmpty := false, thenSteps := [.unknown], elseTail := .unknown }   -- body is not `if slots.len() > 0 { … } else { … }`"
+    b = ts.index("{")
+    e = _end_of(ts, b)
+    then = split_stmts(ts[b + 1:e - 1])
+    rows = classify(then, POPULATE)
+    els = "unknown"
+    if ts[e:e + 2] == ["else", "{"] and _end_of(ts, e + 1) == len(ts):
+        if " ".join(ts[e + 2:-1]) == "SlotIndex :: free_end ( )":
+            els = "freeEnd"
+    if len(names) != 2:
+        rows.append(("unknown", "unexpected parameter list"))
+    return ("{ guardNonEmpty := true,\n    thenSteps := [" + ", ".join("." + c for (c, _) in rows) + "],   -- " + "; ".join(t for (_, t) in rows)[:300].replace("-/", "- /")
+            + f"\n    elseTail := .{els} }}")
+
 SLOT = [
     DBG,
     (r"^self \. index = SlotIndex :: new_data \( p0 \) ;$", "indexNewData", None),
@@ -714,6 +754,26 @@ def extract_steps():
     parts.append(lean_list("slotRelease", "SlotSet", bodies["release"],
                            "src/archetype/slot.rs `Slot::release(index_next_free, next_version)`"))
     parts.append("def slotBodies : SlotBodies := { assign := slotAssign, release := slotRelease }")
+    # --- Slot::populate_free_list (control skeleton) and Slot::new_free (literal fields)
+    try:
+        start = next(i for i in range(len(slo) - 2) if slo[i][1] == "struct" and slo[i + 1][1] == "Slot")
+        rec = populate_template(slo, start)
+    except (ExtractError, StopIteration, IndexError, ValueError) as ex:
+        rec = "{ guardNonEmpty := false, thenSteps := [.unknown], elseTail := .unknown }   -- NOT RECOGNISED: " + str(ex)[:120]
+    parts.append("/-- src/archetype/slot.rs `Slot::populate_free_list(start, slots)`: control skeleton and statements -/\ndef populateT : FreeListT :=\n  " + rec)
+    try:
+        params, lo, hi = find_fn(slo, "new_free", start)
+        names = param_names(params)
+        stmts = split_stmts(toks_of(slo, lo, hi))
+        lit = [st for st in stmts if st and st[0] == "Self"]
+        other = [st for st in stmts if st and st[0] != "Self" and not re.match(DBG[0], " ".join(st))]
+        if len(lit) == 1 and not other and len(names) == 1:
+            frows = classify(split_fields(lit[0][2:-1]), NEWFREE_FIELDS, {names[0]: "p0"})
+        else:
+            frows = [("unknown", "body is not debug_assert!s followed by one `Self { … }`")]
+    except (ExtractError, IndexError, NameError) as ex:
+        frows = [("unknown", f"NOT RECOGNISED: {ex}")]
+    parts.append(lean_list("slotNewFreeFields", "SFField", frows, "src/archetype/slot.rs `Slot::new_free(next_free)`: field initialisers of the literal it returns"))
     # --- storage.rs
     for fn, table, ty, name, pren in (("force_destroy", DESTROY, "DStep", "forceDestroySteps", ["indices"]),
                                       ("force_create", CREATE, "CStep", "forceCreateSteps", ["data"]),
@@ -899,7 +959,7 @@ def extract_steps():
     head = ("/- GENERATED by tools/extract.py (tools/extract_steps.py) from /repo/src/archetype/{storage.rs, slot.rs} on every run.\n"
             "   Do not edit.  The statements of the mutating primitives, classified and listed in source order; meaning:\n"
             "   Gecs/Model/Steps.lean; tie theorems: Gecs/Lemmas/GenSteps.lean. -/\n"
-            "import Gecs.Model.Steps\nimport Gecs.Model.ResolveSteps\nimport Gecs.Model.CloneSteps\nimport Gecs.Model.PushSteps\nimport Gecs.Model.KeySteps\nimport Gecs.Model.InitSteps\nimport Gecs.Model.IterSteps\nimport Gecs.Model.LoopSteps\nimport Gecs.Model.BindSteps\nimport Gecs.Model.FindSteps\nimport Gecs.Model.MemSteps\n\nnamespace Gecs.Gen\n\n")
+            "import Gecs.Model.Steps\nimport Gecs.Model.ResolveSteps\nimport Gecs.Model.CloneSteps\nimport Gecs.Model.PushSteps\nimport Gecs.Model.KeySteps\nimport Gecs.Model.InitSteps\nimport Gecs.Model.IterSteps\nimport Gecs.Model.LoopSteps\nimport Gecs.Model.BindSteps\nimport Gecs.Model.FindSteps\nimport Gecs.Model.MemSteps\nimport Gecs.Model.FreeListSteps\n\nnamespace Gecs.Gen\n\n")
     return head + "\n\n".join(parts) + "\n\nend Gecs.Gen\n"
 
 
